@@ -312,7 +312,8 @@ def main():
         for b, inp in bins:
             ip = os.path.join(d, 'in.bin')
             open(ip, 'wb').write(inp)
-            rc1, o1, e1 = run3([hv, 'c03run', b, str(maxsteps), '0', '0'], cwd=d, stdin=open(ip, 'rb'), timeout=1800)
+            ms = maxsteps if 'rand' not in os.path.basename(b) else min(maxsteps, 100000)   # random images mostly loop
+            rc1, o1, e1 = run3([hv, 'c03run', b, str(ms), '0', '0'], cwd=d, stdin=open(ip, 'rb'), timeout=1800)
             isa = o1.decode().strip().split('\n')
             if rc1 != 0 or not isa[-1].startswith('END'):
                 ck.broken.append('extracted ISA run failed on %s: %s' % (os.path.basename(b), (o1 + e1)[-200:]))
